@@ -256,6 +256,10 @@ namespace bloch::runtime {
         // Class runtime metadata and heap tracking
         std::unordered_map<std::string, std::shared_ptr<RuntimeClass>> m_classTable;
         std::vector<std::weak_ptr<Object>> m_heap;
+        // Values that only a C++ temporary holds while evaluation is in progress (argument
+        // lists being built, the object under construction). They are collector roots.
+        std::vector<const std::vector<Value>*> m_pendingArgs;
+        std::vector<std::shared_ptr<Object>> m_pendingObjects;
         RuntimeClass* m_currentClassCtx = nullptr;
         bool m_inStaticContext = false;
         bool m_inConstructor = false;
